@@ -16,6 +16,11 @@ NA = {
 }
 
 CLAIMED = {
+ 'C16': dict(
+   technique='deterministic simulation: typed value sequences with byte-order switches written through the real StreamBuffer, File (simulated disk) and Socket (simulated network with seeded fragmented reads, short sends, latency, small send buffers; bytes captured on the wire) operators and read back through the matching readers; reference serializer as oracle for the captured bytes; bit-exact read-back oracle',
+   text='Seeded search over sequences of up to 64 typed items (all scalar types with extreme, NaN-payload and random bit patterns, strings, arrays of length 0..100 of each element type) with BIG/LITTLE/NATIVE switches at arbitrary points, in three legs. The simulator contributes the File and Socket legs (partial transfers: Socket >> x must block until sizeof(x) bytes arrived); per-type byte layout is input-only and rides along. Found and fixed one genuine defect (native-order Array<T> writes). Evidence, not proof.',
+   ref='DESIGN.md 2.5-2.6, 5 (C16)',
+   note='Trusted: the reference serializer in the scenario (little-endian host assumed for NATIVE), disk and network stubs.'),
  'C18': dict(
    technique='deterministic simulation of the disk: real IniFile/TabularDataFile/TextFile code and glibc stdio over the in-memory VFS; generated INI texts (sections, key=value, comments, blank lines, LF/CRLF, with and without trailing newline, indentation) with up to 20 set() calls on existing and new sections/keys, written explicitly or by destruction, re-read by a fresh object and compared with a model, plus an order oracle on the raw bytes; generated CSV tables (numbers, empty strings, strings over , ; " \' and spaces, flushEvery) re-read cell for cell',
    text='Seeded search over edit histories and tables on the simulated disk. Found and fixed one genuine defect (last INI line without newline lost). The file-system dimension is what the simulator adds (exact in-memory disk, reopen by fresh objects, knob-free); text shapes are input-only and ride along. Evidence, not proof.',
